@@ -242,6 +242,14 @@ pub fn silence_panics() {
     std::panic::set_hook(Box::new(|_| {}));
 }
 
+/// run a call into the code under test; an unwinding panic becomes the observation `Panic`
+pub fn guard<Z: ZNum>(f: impl FnOnce() -> Obs<Z>) -> Obs<Z> {
+    match catch_unwind(AssertUnwindSafe(f)) {
+        Ok(o) => o,
+        Err(_) => Obs::Panic,
+    }
+}
+
 impl Run {
     /// argv: <tier> [--out path] [--known id,id] [--only config] [--replay config op r0 r1 r2 aux]
     pub fn from_args(property: &str, bin: &str) -> Run {
